@@ -112,6 +112,27 @@ theorem truncated_shard_honest (c : Cfg) (code : Code) (H : Bytes → Bytes) (wf
     (hk : k < c.n) (m : Nat) : ShardHonest c code H b k (some ((shardStream c code H k b).take m)) :=
   honest_truncated c code H wf b k hk m
 
+/-- **a well-formed shard of ANOTHER position is a faulty shard, not data.** Store `k` holding (a copy of) the
+shard of position `j ≠ k` of the same part: the shard header names `j`, `openPartReaders` demands `k`, the
+shard does not open — it counts as one honest fault (and is healed), its frames never enter slot `k` of a
+stripe. (The seeded change C17-3 weakened `idx != i` to a bounds check.) -/
+theorem misplaced_shard_rejected (c : Cfg) (code : Code) (H : Bytes → Bytes) (wf : WF c code H) (b : Bytes) (k j : Nat)
+    (hj : j < c.n) (hjk : j ≠ k) : openShard c k (some (shardStream c code H j b)) = none := by
+  have hlen := shardHeader_length c j
+  unfold shardStream openShard
+  have h1 : ¬ (shardHeader c j ++ framesFrom c code H j 0 (stripesOf c b)).length < shardHeaderSize := by simp [hlen]
+  simp only [h1, if_false]
+  rw [take_append_len _ _ _ hlen, parseShardHeader_shardHeader c code H wf j hj]
+  have : (some (c.d, c.n, j, c.stripe) : Option (Nat × Nat × Nat × Nat)) ≠ some (c.d, c.n, k, c.stripe) := by
+    intro h; injection h with h; injection h with _ h; injection h with _ h; injection h with h _; exact hjk h
+  simp [this]
+
+theorem misplaced_shard_honest (c : Cfg) (code : Code) (H : Bytes → Bytes) (wf : WF c code H) (b : Bytes) (k j : Nat)
+    (hj : j < c.n) (hjk : j ≠ k) : ShardHonest c code H b k (some (shardStream c code H j b)) := by
+  unfold ShardHonest
+  rw [misplaced_shard_rejected c code H wf b k j hj hjk]
+  trivial
+
 theorem intact_shard_honest (c : Cfg) (code : Code) (H : Bytes → Bytes) (wf : WF c code H) (b : Bytes) (k : Nat) (hk : k < c.n) :
     ShardHonest c code H b k (some (shardStream c code H k b)) := by
   have := honest_truncated c code H wf b k hk (shardStream c code H k b).length
